@@ -254,24 +254,29 @@ theorem C07_runtime_repaired :
     tyKey (.runtime [0x72] [0x78] (some [0x79])) ≠ tyKey (.runtime [0x72] [0x78] none) ∧
     tyKey (.runtime [0x72] [] (some [0x78])) ≠ tyKey (.runtime [0x72] [0x78] none) := by decide
 
-/-- known finding C07-callable-all-equal, now on the model: `CallableType.Equals` is a bare type assertion, so `Callable`
-    and `Callable[String]` (any two Callable types) are Equal while their keys differ; `Unique` keeps both and a Hash keyed by one
-    does not find the other.  `TyWF` therefore admits the default Callable only: `C07_type_key_iff` does not speak about a
-    Callable with parameters (the equivalence laws hold for them trivially: `tyEq` is constantly true there) -/
-theorem C07_callable_all_equal :
-    tyEq (.callable none) (.callable (some [.str])) = true ∧ tyEq (.callable (some [.str])) (.callable none) = true ∧
-    tyEq (.callable (some [.str])) (.callable (some [.int 1 2])) = true ∧
-    tyKey (.callable none) ≠ tyKey (.callable (some [.str])) ∧ tyKey (.callable (some [.str])) ≠ tyKey (.callable (some [.int 1 2])) ∧
-    (unique [.typ (.callable none), .typ (.callable (some [.str]))]).length = 2 ∧
-    (hashGet [(.typ (.callable none), .int 1)] (.typ (.callable (some [.str])))).isSome = false ∧
-    TyWF (.callable none) = true ∧ TyWF (.callable (some [.str])) = false := by decide
+/-- the former witnesses of the findings C07-callable-all-equal (`CallableType.Equals` was a bare type assertion; /repo fix
+    3d635fb) and C07-callable-parameters-key (the key was built from `Parameters()`, which drops Unit members and an implied
+    Tuple size; /repo fix a044786): `Callable` and `Callable[String]` are no longer Equal; `Callable[Unit, String]` and
+    `Callable[String]` (never Equal) now have different keys; `Unique` keeps what is distinct, a Hash finds what is equal -/
+theorem C07_callable_repaired :
+    tyEq (.callable false []) (.callable true [.str]) = false ∧ tyEq (.callable true [.str]) (.callable false []) = false ∧
+    tyEq (.callable true [.str]) (.callable true [.int 1 2]) = false ∧ tyEq (.callable true [.str]) (.callable true [.str]) = true ∧
+    tyKey (.callable false []) ≠ tyKey (.callable true [.str]) ∧
+    tyEq (.callable true [.nul .unit, .str]) (.callable true [.str]) = false ∧
+    tyKey (.callable true [.nul .unit, .str]) ≠ tyKey (.callable true [.str]) ∧
+    tyKey (.callable true [.str, .nul .unit]) ≠ tyKey (.callable true [.nul .unit, .str]) ∧
+    tyKey (.callable true []) ≠ tyKey (.callable false []) ∧
+    (unique [.typ (.callable true [.str]), .typ (.callable true [.nul .unit, .str]), .typ (.callable true [.str])]).length = 2 ∧
+    (hashGet [(.typ (.callable true [.str]), .int 1)] (.typ (.callable true [.nul .unit, .str]))).isSome = false ∧
+    TyWF (.callable true [.nul .unit, .str]) = true := by decide
 
-/-- the full statement for the Callable family (what `C07_type_key_iff` would say if `TyWF` admitted them) … -/
+/-- the full statement for the Callable family: now an instance of `C07_type_key_iff` (no exception is left) -/
 def C07_callable_key_iff_full : Prop :=
-  ∀ ts us : Option (List Ty), tyKey (.callable ts) = tyKey (.callable us) ↔ tyEq (.callable ts) (.callable us) = true
-/-- … is false of the code as it is -/
-theorem C07_not_callable_key_iff_full : ¬ C07_callable_key_iff_full := fun h =>
-  absurd ((h none (some [.str])).mpr (by decide)) (by decide)
+  ∀ (h h' : Bool) (ts us : List Ty), TyWF (.callable h ts) = true → TyWF (.callable h' us) = true →
+    (tyKey (.callable h ts) = tyKey (.callable h' us) ↔ tyEq (.callable h ts) (.callable h' us) = true)
+theorem C07_callable_key_iff : C07_callable_key_iff_full := fun _ _ _ _ ha hb => C07_type_key_iff _ _ ha hb
+example : tyKey (.callable true [.var [.str, .undef], .int 1 2]) = tyKey (.callable true [.var [.undef, .str], .int 1 2]) :=
+  (C07_callable_key_iff true true _ _ (by decide) (by decide)).mpr (by decide)
 
 /-- every type inside a comparable value is well-formed -/
 theorem typesIn_wf : ∀ (n : Nat) (x : Val), sizeOf x ≤ n → cmp x = true → ∀ a ∈ typesIn x, TyWF a = true := by
